@@ -29,7 +29,8 @@ RULE = ('random op sequences (8-40 calls) over 1-3 streams on images with files 
         'of the same stream, or a readinto/seek past a boundary occurs')
 LEVEL_TEXT = ('Lean 4 refinement theorem: for every sequence of stream calls on any number of open files and every interleaving '
               'with other uses of the shared file object, the outputs equal those of independent in-memory streams of each '
-              "file's bytes (stream_refines); extraction with any positive block size is exact (copy_exact). The model is tied "
+              "file's bytes (stream_refines); extraction with any positive block size is exact (copy_exact); path lookups through the caches "
+              'answer as lookups without them for every history whose edits clear them (cache_transparent). The model is tied '
               'to pycdlibio.py by differential execution on real images, the property is re-checked against io.BytesIO.')
 LEVEL_NOTE = ('Trusted: Lean kernel; backing file abstracted to bytes + one shared position; interfering uses abstracted to the '
               'position they leave behind (observed from the real run). Runtime part not exhibited by the model: OS-level '
